@@ -40,7 +40,11 @@ func floatText(f float64, exp bool) string {
 	return s
 }
 
-func (n *node) numText() string {
+// numText spells a number for format f (0 JSON, 1 YAML, 2 TOML).
+func (n *node) numText(f int) string {
+	if n.sp != nil && n.sp[f] != "" {
+		return n.sp[f]
+	}
 	switch n.k {
 	case nInt:
 		return strconv.FormatInt(n.i, 10)
@@ -100,7 +104,7 @@ func jsonVal(b *strings.Builder, n *node, rs *kit.Rand) {
 	case nBool:
 		b.WriteString(strconv.FormatBool(n.b))
 	case nInt, nBigUint, nFloat, nRawNum:
-		b.WriteString(n.numText())
+		b.WriteString(n.numText(0))
 	case nStr:
 		b.WriteString(quoted(n.s))
 	case nArr:
@@ -164,7 +168,7 @@ func (y yamlR) scalar(n *node) string {
 	case nBool:
 		return strconv.FormatBool(n.b)
 	case nInt, nBigUint, nFloat, nRawNum:
-		return n.numText()
+		return n.numText(1)
 	case nStr:
 		return y.str(n.s, false)
 	}
@@ -283,7 +287,7 @@ func (t *tomlR) inline(n *node) string {
 	case nBool:
 		return strconv.FormatBool(n.b)
 	case nInt, nFloat, nRawNum:
-		return n.numText()
+		return n.numText(2)
 	case nStr:
 		return t.str(n.s)
 	case nArr:
